@@ -11,8 +11,10 @@ echo "== demo without change"; timeout 300 /venv/bin/python demo_$P.py > /tmp/se
 git apply patch.diff
 echo "== suite with change"; /venv/bin/python -m pytest -q -p no:cacheprovider -n 6 tests 2>&1 | grep -v csimulator_api_test | grep "FAILED\|passed" | tail -4
 mkdir -p /verif/seeded/$NAME && cp patch.diff demo_$P.py /verif/seeded/$NAME/
-cd /repo && git apply $W/patch.diff || { echo "patch does not apply to /repo"; exit 2; }
-if git diff --name-only | grep -q '^c/'; then echo "(C source changed: checks compile it themselves)"; fi
+# Builders read /repo live, so while they run the seeded tree is a scratch copy selected with SKOOLKIT_REPO
+# (the checks take their import root and the C source from it). `tools_seed.sh --repo` applies to /repo itself.
+M=/tmp/seedrun_$P; rm -rf $M; mkdir -p $M; cp -a /repo/skoolkit /repo/c $M/; rm -f $M/skoolkit/*.so
+(cd $M && patch -p1 -s < $W/patch.diff) || { echo "patch does not apply"; exit 2; }
 cd /verif
-for C in $CHECKS; do echo "== ./check $C on seeded tree"; ./check $C 2>&1 | grep -v "^KNOWN-FINDING" | tail -4 | cut -c1-260; done
-git -C /repo checkout -- . && git -C /repo status --short | head -3
+for C in $CHECKS; do echo "== SKOOLKIT_REPO=$M ./check $C"; SKOOLKIT_REPO=$M ./check $C 2>&1 | grep -v "^KNOWN-FINDING" | tail -5 | cut -c1-260; done
+rm -rf $M
